@@ -78,12 +78,12 @@ CLAIMED.update({
    note=TB + "float64 uninterpreted with monotonicity axioms for u2f/fmul/fround/f2u (specs/externals.spec); SumPriorities' accumulation assumed not to wrap.",
    technique="contract-based deductive verification: loop invariants over map sums and quantified per-entry facts; nonlinear integer arithmetic; z3/cvc5"),
  "C15": dict(category="proof",
-   text="Calling convention: the contract of the function type Divider (priorities strictly descending, all configured, dividend <= HandlersQuantity, v2 distribution non-nil) is an obligation at every call through a Divider value; updateUncrowded/updateUseful/updateUsefulLikeUncrowded are proved to build strictly descending sub-lists. Fail-safe: the ghost flag gDivErr is defined by the divider-call hook from the map before/after the call (non-zero added total != dividend), safeDivide must return ErrDividerBad when it is set, every caller propagates it, the send hook requires !gDivErr (no delivery after a fault), the capacity bound of C01 is proved with the untrusted divider, close requires nothing in flight. Constructor (v2): a creation-time fault returns ErrDividerBad and every listed priority must have a share >= 1. Two genuine defects were found by these obligations and repaired (known_findings.txt).",
+   text="Calling convention: the contract of the function type Divider (priorities strictly descending, all configured, dividend <= HandlersQuantity, v2 distribution non-nil) is an obligation at every call through a Divider value; updateUncrowded/updateUseful/updateUsefulLikeUncrowded are proved to build strictly descending sub-lists. Fail-safe: the ghost flag gDivErr is defined by the divider-call hook from the map before/after the call (non-zero added total != dividend), safeDivide must return ErrDividerBad when it is set, every caller propagates it, the send hook requires !gDivErr (no delivery after a fault), the capacity bound of C01 is proved with the untrusted divider, close requires nothing in flight. Constructor (v2): a creation-time fault returns ErrDividerBad; every configured priority is in the priority list (set of list elements pset, grown at each append, preserved by the sort) and has a share >= 1 when the goroutine is started. Two genuine defects were found by these obligations and repaired (known_findings.txt).",
    design_ref="DESIGN.md §7 C15, §8.2, §8.5",
-   note=TB + "v1: the unchecked divisions are assumed honest (see C01); SortPriorities (closure over sort.SliceStable) has a trusted contract; 'every configured priority appears in the list' is not proved (needs an existential invariant).",
+   note=TB + "v1: the unchecked divisions are assumed honest (see C01); SortPriorities (closure over sort.SliceStable) has a trusted contract.",
    technique=GH2),
  "C17": dict(category="proof",
-   text="State transformers of v1 AddInput/RemoveInput: addInput ensures the channel is registered under the priority (replacing any previous one) with Drained reset; removeInput ensures the priority is gone from the inputs table and from the configured set, so - every input receive being on inputs[q].Channel with q configured - the removed channel is never read again; both leave the in-flight accounting (actual) untouched and re-establish the full discipline invariant (capacity, divider convention), i.e. across any sequence of add/replace/remove/re-add; removePriority (in-place filter) keeps order and removes exactly the priority. Argued, not proved: 'on return' (the request channels are unbuffered and served by the scheduling goroutine before its next input receive); that an added priority is listed (existential invariant).",
+   text="State transformers of v1 AddInput/RemoveInput: addInput ensures the channel is registered under the priority (replacing any previous one) with Drained reset; removeInput ensures the priority is gone from the inputs table and from the configured set, so - every input receive being on inputs[q].Channel with q configured - the removed channel is never read again; both leave the in-flight accounting (actual) untouched and re-establish the full discipline invariant (capacity, divider convention), i.e. across any sequence of add/replace/remove/re-add; removePriority (in-place filter) keeps order and removes exactly the priority. Every configured priority is in the priority list at all times (WF clause over the element set of the list; addPriority appends it, removePriority keeps every other element - proved with an existential invariant -, the sort preserves the set). Argued, not proved: 'on return' (the request channels are unbuffered and served by the scheduling goroutine before its next input receive).",
    design_ref="DESIGN.md §7 C17",
    note=TB + "see C01; hand-off by Go channel semantics.",
    technique=GH2),
